@@ -736,10 +736,15 @@ def standin_unroll_dependencies(tier, seed):
     tag = MAPPED_CIRCUIT_OP_TAG
     sub_m = cirq.CircuitOperation(cirq.FrozenCircuit(cirq.X(q0) ** 0.5, cirq.measure(q0, key="m"))).with_tags(tag)
     sub_r = cirq.CircuitOperation(cirq.FrozenCircuit(cirq.H(q1), cirq.X(q1).with_classical_controls("m"), cirq.measure(q1, key="k"))).with_tags(tag)
+    sub_r2 = cirq.CircuitOperation(cirq.FrozenCircuit(cirq.Z(q1), cirq.Z(q1), cirq.X(q1).with_classical_controls("m"))).with_tags(tag)
     circuits_ = {
         "measuring sub-circuit, then a control on another qubit": cirq.Circuit(cirq.Moment(sub_m), cirq.Moment(cirq.X(q1).with_classical_controls("m")), cirq.Moment(cirq.measure(q1, key="k"))),
         "measurement, then a reading sub-circuit on another qubit": cirq.Circuit(cirq.Moment(cirq.H(q0)), cirq.Moment(cirq.measure(q0, key="m")), cirq.Moment(sub_r)),
         "measuring sub-circuit next to an idle qubit, then a reading sub-circuit": cirq.Circuit(cirq.Moment(sub_m, cirq.H(q2)), cirq.Moment(sub_r), cirq.Moment(cirq.measure(q2, key="z"))),
+        "a key measured twice; a reading sub-circuit (deeper than one moment, on another qubit) between the two": cirq.Circuit(
+            cirq.Moment(cirq.measure(q0, key="m")), cirq.Moment(sub_r2, cirq.X(q0)), cirq.Moment(cirq.measure(q0, key="m")), cirq.Moment(cirq.measure(q1, key="out"))),
+        "a key measured twice; a two-moment reading sub-circuit after an idle moment": cirq.Circuit(
+            cirq.Moment(cirq.H(q0)), cirq.Moment(cirq.measure(q0, key="m")), cirq.Moment(sub_r2), cirq.Moment(cirq.X(q0)), cirq.Moment(cirq.measure(q0, key="m")), cirq.Moment(cirq.measure(q1, key="out"))),
     }
     for cname, c in circuits_.items():
         want = refsim.ref_distribution(cirq.Circuit(cirq.decompose(c)), [q0, q1, q2])
@@ -753,10 +758,80 @@ def standin_unroll_dependencies(tier, seed):
                 continue
             if not refsim.dist_close(got, want, atol=1e-6):
                 fails.append(dict(args=dict(transformer=tname, scenario=cname, circuit=repr(c), output=repr(out)[:1200]), failed="unroll-classical-dependency", clause=f"{tname}: the record distribution changed"))
-    return dict(function=F + "/transformer_primitives.py:unroll_circuit_op*", case="unroll-dependencies", bound="3 fixed circuits (a measuring / a reading sub-circuit with the dependent operation on other qubits) x 3 unrolling transformers",
+    return dict(function=F + "/transformer_primitives.py:unroll_circuit_op*", case="unroll-dependencies", bound="5 fixed circuits (a measuring / a reading sub-circuit with the dependent operation on other qubits; a key measured again after a reading sub-circuit) x 3 unrolling transformers",
                 cases=cases, distinct=cases, failures=len(fails), exhaustive=True, _fails=fails[:4])
 standin_unroll_dependencies.prop = "C06"
 STANDINS.append(standin_unroll_dependencies)
+
+
+def standin_multi_moment_gauges(tier, seed):
+    """the multi-moment CPhase gauge: blocks of moments holding CZ powers next to Paulis / Z powers / identities (some tagged to be ignored, some
+    moments holding gate-less operations or other gates): the unitary stays (up to global phase), no operation is lost, operations carrying an
+    ignored tag come out unchanged"""
+    import collections
+
+    import cirq
+    from cirq.transformers.gauge_compiling.multi_moment_cphase_gauge import CPhaseGaugeTransformerMM
+
+    rng = random.Random(seed + 311)
+    cases, fails = 0, []
+    ctx = cirq.TransformerContext(tags_to_ignore=("ignore",))
+    for trial in range(40 if tier == "quick" else 400):
+        n = rng.choice([3, 4])
+        qs = cirq.LineQubit.range(n)
+        moments = []
+        for _m in range(rng.randrange(2, 6)):
+            free = list(qs)
+            rng.shuffle(free)
+            ops_ = []
+            kind = rng.random()
+            if kind < 0.75:
+                a, b = free.pop(), free.pop()
+                cz = (cirq.CZ ** rng.choice([0.2, 1.0, -0.3, 0.5])).on(a, b)
+                if rng.random() < 0.12:
+                    cz = cz.with_tags("ignore")
+                ops_.append(cz)
+                for x in free:
+                    r_ = rng.random()
+                    if r_ < 0.6:
+                        o = rng.choice([cirq.X, cirq.Y, cirq.Z, cirq.I, cirq.Z ** 0.3, cirq.Z ** -0.7, cirq.S])(x)
+                        if rng.random() < 0.3:
+                            o = o.with_tags("ignore")
+                        ops_.append(o)
+                    elif r_ < 0.7:
+                        ops_.append(cirq.CircuitOperation(cirq.FrozenCircuit(cirq.H(x))))
+                    elif r_ < 0.75:
+                        ops_.append(cirq.H(x))
+            else:
+                for x in free:
+                    if rng.random() < 0.6:
+                        ops_.append(rng.choice([cirq.H, cirq.X ** 0.5, cirq.Z ** 0.25, cirq.X])(x))
+            moments.append(cirq.Moment(ops_))
+        c = cirq.Circuit(moments)
+        sd = rng.randrange(1000)
+        cases += 1
+        args = dict(circuit=repr(c), seed=sd)
+        try:
+            out = CPhaseGaugeTransformerMM()(c, context=ctx, rng_or_seed=sd)
+        except Exception as ex:
+            fails.append(dict(args=args, failed="mm-gauge-raised", clause=f"CPhaseGaugeTransformerMM raised {type(ex).__name__}: {ex}"))
+            continue
+        args["output"] = repr(out)[:1500]
+        tagged = lambda circ: collections.Counter(op for op in circ.all_operations() if "ignore" in op.tags)
+        gateless = lambda circ: collections.Counter(op for op in circ.all_operations() if op.gate is None)
+        if not refsim.equal_up_to_global_phase(out.unitary(qubit_order=qs, qubits_that_should_be_present=qs), c.unitary(qubit_order=qs, qubits_that_should_be_present=qs), atol=1e-6):
+            fails.append(dict(args=args, failed="mm-gauge-meaning", clause="CPhaseGaugeTransformerMM changed the circuit's unitary (beyond global phase)"))
+        elif gateless(out) != gateless(c):
+            fails.append(dict(args=args, failed="mm-gauge-lost-operation", clause="CPhaseGaugeTransformerMM lost or duplicated a sub-circuit operation"))
+        elif tagged(out) != tagged(c):
+            fails.append(dict(args=args, failed="mm-gauge-ignored-tag", clause=f"operations carrying an ignored tag were changed: {dict(tagged(c))} became {dict(tagged(out))}"))
+        if len(fails) >= 3:
+            break
+    return dict(function=F + "/gauge_compiling/multi_moment_cphase_gauge.py:CPhaseGaugeTransformerMM", case="multi-moment-gauges",
+                bound="seeded circuits of 2-5 moments on 3-4 qubits (CZ powers beside Paulis / Z powers / identities / sub-circuits / other gates, 30% of single-qubit gates and 12% of CZ powers tagged to be ignored), one seed each",
+                cases=cases, distinct=cases, failures=len(fails), exhaustive=False, _fails=fails[:3])
+standin_multi_moment_gauges.prop = "C06"
+STANDINS.append(standin_multi_moment_gauges)
 
 
 def standin_vendor_special_cases(tier, seed):
